@@ -123,6 +123,12 @@ func fieldName(t types.Type, i int) string {
 }
 
 func (s *Sym) rootKey(v ssa.Value) string {
+	switch v.(type) {
+	case *ssa.Parameter, *ssa.Global, *ssa.Alloc, *ssa.FreeVar:
+	default:
+		// memory reached through a loaded pointer: keep it apart from the cell holding the pointer
+		return "*(" + s.Of(v) + ")"
+	}
 	switch x := v.(type) {
 	case *ssa.Parameter:
 		return s.param(x)
